@@ -24,7 +24,8 @@ Proof. exact decode_sound. Qed.
 Print Assumptions C04_decode_sound.
 
 (* ... and the language it accepts is exactly the encodings of well-formed UPDATEs
-   (the encoder is the grammar; [mp_unique] is the one check of [wf] that this mode leaves out) *)
+   (the encoder is the grammar; [mp_unique] - at most one attribute of type 14 and one of type 15 -
+   is the one check of [wf] that this mode leaves out: it looks at the first of each only) *)
 Theorem C04_decode_sound_complete : forall b u,
   (decode Code b = Some u /\ mp_unique (u_attrs u) = true) <-> (wf u = true /\ b = encode u).
 Proof. exact decode_iff. Qed.
@@ -105,6 +106,13 @@ Theorem C04_duplicate_mp_refuted :
   /\ events_of_bytes Code pdu_dup_mp = Some [EvW F6U (MkPfx 8 [32])].
 Proof. exact dup_mp_diverge. Qed.
 Print Assumptions C04_duplicate_mp_refuted.
+
+(* ... and never even parses a later one (here the third MP_UNREACH_NLRI has no AFI/SAFI at all) *)
+Theorem C04_duplicate_mp_unparsed_refuted :
+  events_of_bytes Rfc pdu_dup_mp_bad = None
+  /\ events_of_bytes Code pdu_dup_mp_bad = Some [EvW F6U (MkPfx 8 [32])].
+Proof. exact dup_mp_bad_diverge. Qed.
+Print Assumptions C04_duplicate_mp_unparsed_refuted.
 
 (* BMP dump phase: the End-of-RIB test the implementation uses (routecore is_eor: the first
    MP_UNREACH_NLRI yields no prefix) also fires on UPDATEs that carry routes; such an UPDATE
